@@ -88,7 +88,9 @@ Context::~Context()
     delete _returned;
   _returned = nullptr;
 
-  if (_fctm->getRoot() == this)
+  /* only the root context owns the manager; a child must not even look at it,
+   * as the root it was made from could be gone (clone, purge) */
+  if (_root == this)
     delete _fctm;
   _fctm = nullptr;
 
@@ -548,6 +550,12 @@ Context * Context::createChildRuntime(Context& root, uint8_t recursion) const
 {
   assert(recursion > 0);
   Context * runtime = new Context(*this);
+  /* the runtime belongs to the root making the call, which is not the root
+   * that declared the function when running in a clone */
+  runtime->_root = &root;
+  runtime->_ts_init = root._ts_init;
+  runtime->_sout = root._sout;
+  runtime->_serr = root._serr;
   runtime->_fctm = root._fctm;
   runtime->_recursion = recursion;
   /* copy table of symbols with new empty values */
